@@ -191,8 +191,17 @@ fn cmd_check(id: &str, args: &[String]) -> i32 {
     let seed = seed();
     println!("ivpsim check {id} tier={} VERIF_SEED={seed} workers={workers}", tier.name());
     let known = KnownFindings::load(&format!("{}/known_findings.json", root()));
+    if id != "C04" && std::env::var_os("VERIF_WATCHDOG").is_none() {
+        // only C04 judges termination; elsewhere a run beyond 1e6 ticks (20x the admissibility
+        // bound of the generators) is merely a blocked case, so the smaller budget costs no soundness
+        run::WATCHDOG.store(1_000_000, std::sync::atomic::Ordering::Relaxed);
+    }
     let t0 = std::time::Instant::now();
     let res = run_campaign(prop.as_ref(), tier, seed, workers);
+    let hung = run::HANGS.load(std::sync::atomic::Ordering::Relaxed);
+    if id != "C04" && hung > 0 {
+        println!("NOTE property={id}: {hung} runs exceeded the tick watchdog and were counted as blocked (termination is judged by C04)");
+    }
 
     // group violations by (oracle, classification); keep the first of each group
     let mut groups: BTreeMap<(String, Option<String>), (usize, u64)> = BTreeMap::new();
@@ -219,7 +228,9 @@ fn cmd_check(id: &str, args: &[String]) -> i32 {
             }
             None => {
                 unlisted += 1;
-                let m = minimise::minimise(prop.as_ref(), &f.scenario, v, &known, 400);
+                // a hang costs 9 watchdog budgets per re-execution: shrink it with fewer attempts
+                let budget = if oracle.ends_with(".hang") { 60 } else { 400 };
+                let m = minimise::minimise(prop.as_ref(), &f.scenario, v, &known, budget);
                 let _ = std::fs::create_dir_all(&replay_dir);
                 let path = format!("{replay_dir}/{id}-{}-{seed}-{}-{}.json", oracle.replace('.', "_"), f.item, f.index);
                 let rf = ReplayFile {
@@ -278,7 +289,7 @@ fn cmd_replay(path: &str) -> i32 {
         run::WATCHDOG.store(rf.watchdog, std::sync::atomic::Ordering::Relaxed);
     }
     let mut cov = Cov::default();
-    let vs = prop.check(&rf.scenario, &mut cov);
+    let vs = guarded_check(prop.as_ref(), &rf.scenario, &mut cov);
     match vs.iter().find(|v| v.oracle == rf.oracle) {
         Some(v) if v.detail == rf.detail => {
             println!("VIOLATION property={} replay={path} oracle={} :: {} :: {}", rf.property, rf.oracle, v.detail, rf.scenario.summary());
